@@ -20,7 +20,7 @@ def items(tier, seed):
         job_open={'dur': [0, 2, 'never'], 'forever': [True], 'out': ['raise'],
                   'critical': [True], 'k': ['coro'], 'cdelay': [1]},
         top_open={'timeout': [1, 2], 'k': ['nest']},
-        k=3 if th else 2, bound=3 if th else 2)
+        k=2, bound=3 if th else 2)
     yield from spaces.mk(
         ['flat5s'], th, force='windows', fargs={'values': [1, 2, 3]},
         job_open={'dur': [0, 2], 'out': ['raise']}, top_open={}, k=1,
